@@ -52,9 +52,14 @@ def main():
     for y in (1900, 2000, 2100, 1600, 2023, 2024, -400, -1, 0, 1, 4, 100, 9999):
         for (d, m) in ((28, 2), (29, 2) if is_leap(y) else (27, 2), (31, 12), (30, 11), (31, 1), (1, 3)):
             cases.append(('valid', d, m, y, rng.choice([3, 40, 400])))
+    # every century year of the range (the Gregorian rule distinguishes them by y mod 400): start just before
+    # the end of February and at the end of the year
+    for y in range(-400, 10000, 100):
+        cases.append(('valid', 27, 2, y, 5))
+        cases.append(('valid', 30, 12, y, 4))
     nrand = 300 if quick else 6000
     for _ in range(nrand):
-        y = rng.choice([rng.randint(-400, 9999), rng.randint(1890, 2110), 400 * rng.randint(-1, 24) + rng.randint(-2, 2)])
+        y = rng.choice([rng.randint(-400, 9999), rng.randint(1890, 2110), 100 * rng.randint(-4, 99) + rng.randint(-1, 1)])
         m = rng.randint(1, 12)
         d = rng.randint(1, mlen(m, y))
         n = rng.choice([0, 1, 2, 7, 40, 366, 800, 1200])
